@@ -17,7 +17,7 @@ EXTENDS Naturals, Sequences, Json, IOUtils, TLC, TLCExt
 
 T == ndJsonDeserialize(IOEnv.TRACE_FILE)
 Slots == {"a", "b"}
-Observers == {"compose", "as_json", "as_markdown", "ja3", "hassh", "hassh_server", "fingerprints", "key_tag",
+Observers == {"compose", "as_json", "as_markdown", "as_markdown_enc", "ja3", "hassh", "hassh_server", "fingerprints", "key_tag",
               "key_bytes", "host_key_asdict"}
 
 VARIABLES l, beg, exp, memo
@@ -37,6 +37,7 @@ Step == /\ T[l].ev = "step"
                   /\ Report(\A t \in Slots : e.dg[t] = exp[t],
                             <<"BAD", IF e.out = "raised" THEN "failed-observer-changed-object" ELSE "observer-changed-object", l, e.obs>>)
                   /\ Report(memo[s][e.obs] = "?" \/ memo[s][e.obs] = e.out, <<"BAD", "observer-result-not-repeatable", l, e.obs>>)
+                  /\ Report(e.state_ok, <<"BAD", "observer-left-process-wide-state-changed", l, e.obs>>)
                   /\ memo' = [memo EXCEPT ![s][e.obs] = e.out]
                   /\ exp' = [t \in Slots |-> e.dg[t]]
              [] name = "mutate" ->
